@@ -17,6 +17,7 @@ pub mod c11;
 pub mod c12;
 pub mod c13;
 pub mod c16;
+pub mod c17;
 pub mod c18;
 
 pub fn n_cases(ctx: &Ctx) -> u64 {
@@ -36,6 +37,7 @@ pub fn n_cases(ctx: &Ctx) -> u64 {
         "C12" => c12::n_cases(ctx),
         "C13" => c13::n_cases(ctx),
         "C16" => c16::n_cases(ctx),
+        "C17" => c17::n_cases(ctx),
         "C18" => c18::n_cases(ctx),
         _ => 0,
     }
@@ -58,6 +60,7 @@ pub fn run_case(ctx: &Ctx, idx: u64) -> Vec<CaseOut> {
         "C12" => c12::run_case(ctx, idx),
         "C13" => c13::run_case(ctx, idx),
         "C16" => c16::run_case(ctx, idx),
+        "C17" => c17::run_case(ctx, idx),
         "C18" => c18::run_case(ctx, idx),
         _ => Vec::new(),
     }
